@@ -4,6 +4,19 @@ claimed / not_applicable partition is always consistent)."""
 import json
 
 CLAIMS = {
+ 'C02': dict(
+   text='Static decision of the structural part of laziness over the whole operator catalogue: no view constructor / '
+        'view-returning function applies an eager consumer (directly or through resolved petl callees) to a table '
+        'argument (header reads only); none of the 62 streaming iterator functions named by the property drains a '
+        'streamed source; repr/look/see/display consume only a finite islice when a limit is set; every __iter__ of '
+        'a streaming view is lazy. A drain or an eager constructor is a construct, so the verdict holds for every k '
+        'and every source length.',
+   ref='DESIGN.md §4 C02',
+   note='does not count pulled rows at run time (a constant look-ahead is not distinguished from none); eager/lazy '
+        'classification of builtins and itertools is a trusted table; the STREAMING list is frozen from the '
+        'property statement; facet() is eager by documentation',
+   technique='interprocedural READS(param) summaries (none/header/data) + iterator typestate over the frozen list '
+             'of streaming functions; analysis of _vis_overflow under the assumption limit is truthy'),
  'C03': dict(
    text='Static freshness/ownership analysis of every function in petl.transform.* / petl.util.* (thorough: + petl.io.*): '
         'every in-place mutation (mutator method, subscript store/delete, container +=, heapq/shuffle/insort, call of a '
